@@ -940,6 +940,22 @@ def build_sweep_pairs(pool, master_seed, n_pairs):
         same = [o for o in first if o[0] == a[0] and o[1:2] == a[1:2]]
         b = rng.choice(same) if rng.random() < 0.6 else rng.choice(first)
         add("first touch", [], a, b, ["prov"] if rng.random() < 0.9 else [])
+    eraops = [o for o in pool["calid"] if o[0] in ("eras", "erayear")] + [o for g in pool["cal"].values() for grp in g for o in grp if o[0] == "dera"]
+    eraops += [o for o in pool["names"] if o[0] == "names" and (o[3].startswith("era:") or o[3].startswith("eranames:"))]
+    for _ in range(per):
+        # first use of an era from two threads at once
+        if len(eraops) < 2:
+            break
+        add("first touch (eras)", [], rng.choice(eraops), rng.choice(eraops), rng.choice([[], ["cal"]]))
+    cur = [o for ops in pool["text"].values() for o in ops if o[0] in ("fmt", "parse") and o[4] == "current"]
+    for _ in range(per):
+        # two threads, each formatting under its own current culture
+        if len(cur) < 2:
+            break
+        a = rng.choice(cur)
+        others = [o for o in cur if o[3] != a[3]]
+        if others:
+            add("current culture of two threads", [], a, rng.choice(others), rng.choice([[], ["cultures"]]))
     texts = [o for ops in pool["text"].values() for o in ops if o[0] in ("fmt", "fmtw", "fmtcust", "parse")]
     names = pool["names"]
     for _ in range(per * 2):
@@ -1216,7 +1232,7 @@ def prepare(tier, master_seed, workers):
             q = ["dscan", cal, d0 - 3, 45]
             _HIST_PAIRS.append([warm, q])
             hist_ops += [warm, q]
-    n_pairs = {"quick": 60, "thorough": 500}.get(tier, 12)
+    n_pairs = {"quick": 90, "thorough": 600}.get(tier, 12)
     pairs = build_sweep_pairs(_POOL, master_seed, n_pairs)
     sweep_ops = [o for pr in pairs for o in pr["warm"] + [pr["a"], pr["b"]]]
     sweep_ops += [["ziu", o[1], o[2]] for o in sweep_ops if o[0] == "zi"]
@@ -1234,7 +1250,7 @@ def prepare(tier, master_seed, workers):
     table.update(cold_table(parse_ops, workers))
     _TABLE = table
     global _SWEEP_PAIRS
-    _SWEEP_PAIRS, _SWEEPS, sweep_info = build_sweeps(_POOL, master_seed, n_pairs, 260 if tier != "thorough" else 900, 24 if tier != "thorough" else 100, workers)  # fmt: skip
+    _SWEEP_PAIRS, _SWEEPS, sweep_info = build_sweeps(_POOL, master_seed, n_pairs, 180 if tier != "thorough" else 800, 20 if tier != "thorough" else 80, workers)  # fmt: skip
     info = {"sweep": sweep_info, "year_boundary_history_cases": len(_HIST_PAIRS), "pool_ops": len(table), "cold_oracle_s": round(time.monotonic() - t0, 2), "cultures_in_icu": len(_ALL_CULTURES),
             "cold_exceptions": sum(1 for v in table.values() if isinstance(v, list) and v[:1] == ["EXC"])}  # fmt: skip
     return info
@@ -1638,7 +1654,7 @@ ASSUMPTIONS = [
     "identity is required only where the statement or the API documentation promises it (provider lookups per id, CalendarSystem per id, the tzdb provider, DateTimeZone.utc); elsewhere only answers are compared",
     "the private attribute _time_zone of the caching zone and the private format-info cache are read/replaced only to build the oracle table and to shrink the cache (knob); if they disappear those parts are skipped",
 ]
-TIERS = {"quick": {"runs": 2400, "budget": 260.0}, "thorough": {"runs": 400_000, "budget": 2400.0}}
+TIERS = {"quick": {"runs": 2400, "budget": 420.0}, "thorough": {"runs": 400_000, "budget": 2400.0}}
 
 
 def main(a, boot_info):
